@@ -377,6 +377,74 @@ pub fn stall(_seed: u64) -> usize {
         println!("REPRODUCED stall (400 silent clients, proxy protocol off): a well-behaved client that connected after them was not served within 2 s");
         found += 1;
     }
+    // deaf clients: tiny receive window, they request a status larger than it (a favicon of some 8 KB) plus a ping and never
+    // read; their connections run into the 1 s connection timeout and are closed with data still queued. A well-behaved
+    // client arriving while that happens is served at once (whatever the server does when it closes them must not block a
+    // worker). The clients run on a runtime of their own, so that a stalled server runtime cannot slow down their clocks.
+    let delayed = {
+        let client_rt = tokio::runtime::Builder::new_current_thread().enable_all().build().expect("client rt");
+        let port = std::net::TcpListener::bind("127.0.0.1:0").expect("bind").local_addr().unwrap().port();
+        let address = SocketAddr::from(([127, 0, 0, 1], port));
+        let stop = CancellationToken::new();
+        let token = stop.clone();
+        let server = rt.spawn(async move {
+            let mut status = passage_adapters::ServerStatus::default();
+            status.favicon = Some(format!("data:image/png;base64,{}", "iVBORw0KGgoAAAANSUhEUgAA".repeat(330)));
+            let mut l = Listener::new(
+                Arc::new(FixedStatusAdapter::new(Some(status), 0, 0, i32::MAX as _)),
+                Arc::new(FixedDiscoveryAdapter::new(vec![])),
+                Arc::new(Vec::<MetaFilterAdapter>::new()),
+                Arc::new(AnyStrategyAdapter::new()),
+                Arc::new(FixedAuthenticationAdapter::default()),
+                Arc::new(FixedLocalizationAdapter::default()),
+            )
+            .with_connection_timeout(Duration::from_secs(1));
+            let _ = l.listen(address, token).await.map_err(|e| e.to_string());
+        });
+        let slow = client_rt.block_on(async {
+            let mut up = false;
+            for _ in 0..300 {
+                if let Ok(mut s) = TcpStream::connect(address).await {
+                    let _ = s.shutdown().await;
+                    up = true;
+                    break;
+                }
+                tokio::time::sleep(Duration::from_millis(10)).await;
+            }
+            if !up {
+                return false;
+            }
+            let mut deaf = vec![];
+            for _ in 0..8 {
+                let Ok(sock) = tokio::net::TcpSocket::new_v4() else { continue };
+                let _ = sock.set_recv_buffer_size(1);
+                let Ok(mut s) = sock.connect(address).await else { continue };
+                let _ = s.write_packet(hand_in::HandshakePacket { protocol_version: 0, server_address: "".to_string(), server_port: 0, next_state: State::Status }).await;
+                let _ = s.write_packet(status_in::StatusRequestPacket).await;
+                let _ = s.write_packet(status_in::PingPacket { payload: 42 }).await;
+                deaf.push(s);
+            }
+            // the deaf connections hit the connection timeout after 1 s; probe from before until well after it
+            let mut slow = false;
+            for _ in 0..10 {
+                tokio::time::sleep(Duration::from_millis(300)).await;
+                let served = tokio::time::timeout(Duration::from_secs(2), is_served(address, &[])).await;
+                if !matches!(served, Ok(true)) {
+                    slow = true;
+                    break;
+                }
+            }
+            drop(deaf);
+            slow
+        });
+        stop.cancel();
+        let _ = client_rt.block_on(async { tokio::time::timeout(Duration::from_secs(8), server).await });
+        slow
+    };
+    if delayed {
+        println!("REPRODUCED stall (8 deaf clients with a tiny receive window that requested an 8 KB status and never read, connection timeout 1 s): a well-behaved client that connected while they were being closed was not served within 2 s");
+        found += 1;
+    }
     // a client that is over its rate limit and stays silent must not hold up a client with another address
     let delayed = rt.block_on(async {
         let port = std::net::TcpListener::bind("127.0.0.1:0").expect("bind").local_addr().unwrap().port();
